@@ -115,6 +115,7 @@ pub struct Keep {
     bufs: Vec<Box<[u8]>>,
     rx: Vec<virtio_drivers::device::net::RxBuffer>,
     blk: Vec<(Box<virtio_drivers::device::blk::BlkReq>, Box<virtio_drivers::device::blk::BlkResp>)>,
+    tokens: Vec<u16>,
 }
 
 /// A short usage history per driver; leaves requests outstanding and receive queues stocked.
@@ -219,9 +220,31 @@ fn usage<T: Transport>(d: &mut AnyDriver<T>, co: &CoRc, steps: usize, keep: &mut
                     let _ = s.connect(&ci);
                 }
             },
-            AnyDriver::Sound(s) => {
-                let _ = s.latest_notification();
-            }
+            AnyDriver::Sound(s) => match step {
+                0 => {
+                    let _ = s.latest_notification();
+                }
+                1 => {
+                    use virtio_drivers::device::sound::{PcmFeatures, PcmFormat, PcmRate};
+                    let _ = s.output_streams();
+                    let _ = s.pcm_set_params(0, 8, 4, PcmFeatures::empty(), 1, PcmFormat::U8, PcmRate::Rate8000);
+                    // A non-blocking transfer which the device does not complete: its buffers are
+                    // owned by the driver and stay posted.
+                    co.borrow_mut().responder = Box::new(|_, _, _| Action::Hold);
+                    if let Ok(tok) = s.pcm_xfer_nb(0, &[1, 2, 3, 4]) {
+                        keep.tokens.push(tok);
+                    }
+                }
+                _ => {
+                    // Polling it early must not release anything.
+                    if let Some(tok) = keep.tokens.last().copied() {
+                        let _ = s.pcm_xfer_ok(tok);
+                    }
+                    if let Ok(tok2) = s.pcm_xfer_nb(0, &[5, 6, 7, 8]) {
+                        keep.tokens.push(tok2);
+                    }
+                }
+            },
             AnyDriver::Gpu(g) => match step {
                 // Operations that allocate DMA memory after construction.
                 0 => {
@@ -279,7 +302,7 @@ pub fn run_case(case: &Case) -> Out {
             }),
         )
     } else {
-        CoDevice::new(w.dev.clone(), cosim::zero_responder(case.kind))
+        CoDevice::new(w.dev.clone(), cosim::honest_responder(case.kind))
     };
     co.borrow_mut().spin_horizon = 16;
     cosim::install(&co);
